@@ -34,4 +34,16 @@ PROPS = {
                         "direct uses of bidib_boards / bidib_trains / bidib_track_state.* that bypass accessor functions"],
         "explanation": "generated lock-discipline units (engine E2) restricted to the requires-held obligations, see DESIGN.md §5 C10",
     },
+    "C18": {
+        "claimed": True, "engine": "cbmc-contracts", "level": "proof",
+        "technique": "contract-based deductive verification (CBMC): each public bidib_send_* proved against a table-driven postcondition, callee replaced by its contract; loop contracts (DFCC) on the variable-length encoders",
+        "level_text": "For each of the 72 public low-level constructors CBMC proves, for every value of every scalar parameter, every node address (depth 0-3) and every payload content/length: parameters outside the documented range submit nothing, accepted parameters submit exactly one message with the tabulated type code (< 0x80), the caller's address and the specified data bytes (watched index = arbitrary byte), the length byte never exceeds 127, the payload pointer handed down is readable, and no internal buffer is overrun (CBMC bounds/pointer/overflow checks on). The copy loops of the 7 variable-length encoders carry inductive loop invariants (no unwinding bound).",
+        "level_note": "Trusted: CBMC 6.11 (+DFCC for loop contracts); the oracle table units/C18/gen.py (written from include/lowlevel/*.h and the BiDiB message reference); contracts/send_contract.h is the contract of bidib_buffer_message_with(out)_data, whose own proof is part of C01; logging compiled out. One harness-side oracle loop (fw_update_op_data prophecy array) is unwound (constant 130).",
+        "assumptions": ["syslog_libbidib calls are compiled out (arguments of logging calls are not evaluated)",
+                        "caller-supplied payload buffers are exactly as long as the length argument announces (minimal legal buffer)",
+                        "bidib_state_cs_drive / bidib_state_cs_accessory (optimistic state update after MSG_CS_DRIVE/ACCESSORY) are nondeterministic stubs here; they are covered by C07/C09"],
+        "trusted_base": ["oracle table units/C18/gen.py", "contracts/send_contract.h (callee contract, proved for the real callee in C01)"],
+        "not_covered": ["what happens below bidib_buffer_message_* (sequence number, admission, framing): C01/C03/C05"],
+        "explanation": "table-driven per-function contracts, DESIGN.md §5 C18",
+    },
 }
